@@ -92,6 +92,19 @@ def run(ctx):
 
     SideInterp(seeds, on_call).run(ver_cmp.node)
     ctx.floor("R5", 8)
+    # suffix lists are consumed front to back: no from-the-end index on a version's suffix list
+    for n in A.body_walk(ver_cmp.node):
+        if isinstance(n, ast.Subscript) and isinstance(n.ctx, ast.Load) and isinstance(n.value, ast.Name):
+            idx = A.try_literal(n.slice, default=None)
+            if isinstance(idx, int) and idx < 0:
+                base_sides = None
+                tgt = n.value.id
+                # only lists derived by splitting on "_" (suffix lists)
+                srcs = [v for t, v, _ in A.assignments(ver_cmp.node, tgt)]
+                is_suffix_list = any(isinstance(v, ast.Call) and A.call_attr(v) == "split" and v.args and A.is_const(v.args[0], "_") for v in srcs)
+                if is_suffix_list:
+                    ctx.check("R5", ver_cmp, False, f"suffix-from-end@{tgt}", "",
+                              f"`{A.unparse(n)}` picks a suffix from the END of the list; PMS compares suffixes in order, the deciding one is the first extra suffix", node=n)
     # length tie-break: longer component list wins, oriented
     for n in A.body_walk(ver_cmp.node):
         if isinstance(n, ast.If) and isinstance(n.test, ast.Compare) and len(n.test.ops) == 1 and isinstance(n.test.ops[0], (ast.Gt, ast.Lt)):
